@@ -339,7 +339,7 @@ theorem graphPre_isPick (c : Comp) (srcs : List Nat) (a : AxisMap) (h : graphPre
   | tVec v => simp only [graphPre, Except.ok.injEq] at h; subst h; rfl
   | int i =>
     simp only [graphPre, graphAxisSlicePath] at h
-    cases hs : single? (onnxSliceList srcs i (i + 1) 1) with
+    cases hs : single? (onnxSliceList srcs i (scalarStop i maxint) 1) with
     | error e => simp [hs, bind, Except.bind] at h
     | ok s => simp [hs, bind, Except.bind, pure, Except.pure] at h; subst h; rfl
   | slice lo hi st =>
@@ -649,12 +649,12 @@ theorem eagerPre_isPick (c : Comp) (srcs : List Nat) (a : AxisMap) (h : eagerPre
   | tVec v => simp only [eagerPre, Except.ok.injEq] at h; subst h; rfl
   | int i =>
     simp only [eagerPre, eagerAxisSlicePath] at h
-    cases hs : single? (onnxSliceList srcs i (i + 1) 1) with
+    cases hs : single? (onnxSliceList srcs i (scalarStop i srcs.length) 1) with
     | error e => simp [hs, bind, Except.bind] at h
     | ok s => simp [hs, bind, Except.bind, pure, Except.pure] at h; subst h; rfl
   | tScalar i =>
     simp only [eagerPre, eagerAxisSlicePath] at h
-    cases hs : single? (onnxSliceList srcs i (i + 1) 1) with
+    cases hs : single? (onnxSliceList srcs i (scalarStop i srcs.length) 1) with
     | error e => simp [hs, bind, Except.bind] at h
     | ok s => simp [hs, bind, Except.bind, pure, Except.pure] at h; subst h; rfl
   | slice lo hi st =>
